@@ -23,7 +23,7 @@ ASSUMPTIONS = [
     "for a refused cross-project operation only: error class, no foreign pair recorded, tables consistent and unchanged for pairs not named by the op",
 ]
 REQUIRED_LABELS = {
-    "quick": ["reconnect_after_disconnect", "list_overlap", "freed_slot_middle", "cross_project", "self_loop", "mixed_disconnect_list", "other_project_linked", "save_midway"],
+    "quick": ["reconnect_after_disconnect", "list_overlap", "freed_slot_middle", "cross_project", "self_loop", "mixed_disconnect_list", "other_project_linked", "save_midway", "cross_project_mixed_request", "mixed_request_with_noop_pair"],
     "thorough": ["reconnect_after_disconnect", "list_overlap", "freed_slot_middle", "cross_project", "self_loop", "mixed_disconnect_list"],
 }
 
@@ -223,7 +223,7 @@ def op_list(draw, max_modules=8, max_ops=30, with_save_load=False):
     n = n0 + 1  # + output
     ops = []
     k = draw(st.integers(1, max_ops))
-    kinds = ["rshift", "lshift", "rshift_dis", "lshift_dis", "rshift_list", "lshift_list", "chain_r", "chain_l", "mlist_r_dis", "mlist_r_list", "mlist_l_list", "chain_r_list", "chain_l_list", "connect", "connect_single", "x", "x", "xlink", "new"]
+    kinds = ["rshift", "lshift", "rshift_dis", "lshift_dis", "rshift_list", "lshift_list", "chain_r", "chain_l", "mlist_r_dis", "mlist_r_list", "mlist_l_list", "chain_r_list", "chain_l_list", "connect", "connect_single", "x", "x", "xmix", "xmix", "xlink", "new"]
     weights = kinds + ["rshift", "lshift", "rshift_dis", "lshift_dis", "connect", "connect", "rshift_list"]
     weights = weights + ["save", "save"]  # a user saves whenever they like; it must not disturb the tables
     if with_save_load:
@@ -257,6 +257,10 @@ def op_list(draw, max_modules=8, max_ops=30, with_save_load=False):
             ops.append(["connect_single", [idx(), draw(st.booleans())], [idx(), draw(st.booleans())]])
         elif kind == "x":
             ops.append(["x", draw(st.sampled_from(["rshift", "lshift", "connect_to", "connect_from", "connect_list", "dis"])), idx(), draw(st.integers(1, 2))])
+        elif kind == "xmix":
+            sp = draw(st.sampled_from(["connect_to", "connect_from", "rshift", "lshift"]))
+            own = [[i, draw(st.booleans()) if sp.startswith("connect") else False] for i in idxs(1, 3)]
+            ops.append(["xmix", sp, [idx(), False], own, draw(st.integers(1, 2)), draw(st.integers(0, 3))])
         elif kind == "xlink":
             ops.append(["xlink", draw(st.integers(0, 2)), draw(st.integers(0, 2)), draw(st.booleans())])
         elif kind == "save_load":
@@ -295,6 +299,43 @@ def run_ops(ctx, case, prop="C07", on_save_load=None):
                 raise PropertyViolation(prop + ".cross_project.unchanged", "step %d %r changed the link tables" % (step, op))
             if lm.tables(world.foreign) != foreign_before:
                 raise PropertyViolation(prop + ".cross_project.foreign_tables", "the refused operation changed the other project's tables: %r -> %r" % (foreign_before, lm.tables(world.foreign)))
+            continue
+        if op[0] == "xmix":
+            # a refused request that also names modules of this project: whatever part of it was carried
+            # out, no pair may end up in the state opposite to what was asked, no unnamed pair may change
+            foreign_before = lm.tables(world.foreign)
+            E_before = set(lm.edges_of(world.project))
+            err = world.apply(op)
+            labels.add("cross_project_mixed_request")
+            if not isinstance(err, ModuleOwnershipError):
+                raise PropertyViolation(prop + ".cross_project.refused", "step %d %r: expected ModuleOwnershipError, got %r" % (step, op, err))
+            lm.check_consistency(world.project, None, prop)
+            E_after = set(lm.edges_of(world.project))
+            a, dis_a = op[2]
+            asked = {}
+            for b, dis_b in op[3]:
+                pair = (a, b) if op[1] in ("connect_to", "rshift") else (b, a)
+                dis = (dis_a or dis_b) if op[1].startswith("connect") else False
+                asked.setdefault(pair, set()).add(dis)
+            for pair in (E_before | E_after):
+                if pair not in asked and ((pair in E_before) != (pair in E_after)):
+                    raise PropertyViolation(prop + ".cross_project.mixed.unnamed_pair", "step %d %r: pair %r was not named by the refused request and changed" % (step, op, pair))
+            for pair, want in asked.items():
+                if want == {False} and pair in E_before and pair not in E_after:
+                    labels.add("mixed_request_names_connected_pair")
+                    raise PropertyViolation(prop + ".cross_project.mixed.inverse", "step %d %r: pair %r was connected, the refused request asked to connect it, now it is gone" % (step, op, pair))
+                if want == {True} and pair not in E_before and pair in E_after:
+                    raise PropertyViolation(prop + ".cross_project.mixed.inverse", "step %d %r: pair %r was not connected, the refused request asked to disconnect it, now it exists" % (step, op, pair))
+                if (want == {False} and pair in E_before) or (want == {True} and pair not in E_before):
+                    labels.add("mixed_request_with_noop_pair")
+            if lm.tables(world.foreign) != foreign_before:
+                raise PropertyViolation(prop + ".cross_project.foreign_tables", "the refused operation changed the other project's tables")
+            # the part of the request that was carried out (if any) is now part of the history
+            for pair in E_after - E_before:
+                E.add(pair)
+            for pair in E_before - E_after:
+                E.discard(pair)
+                ever_removed.add(pair)
             continue
         if op[0] == "save_load":
             if on_save_load is None:
